@@ -76,6 +76,16 @@ CHECKS = {
              "object only when nothing matching requires it; foreign finalizers are never changed; eventual release/addition/"
              "removal within 20 virtual seconds. One genuine defect found this way was repaired (fix: commit in /repo).",
         design_ref='DESIGN.md §6 C06'),
+    'C14': dict(
+        technique="explicit-state history enumeration on the implementation (restarts, re-listings, reconnects to depth d) plus "
+                  "crash-point and deviation-bounded schedule search, closed loop with a fake API server",
+        text="An object is handled by a first operator process; a second process starts; every history to depth 3/4 over {spec edit, "
+             "status edit, delete, 410 Gone re-listing, EOF reconnect, graceful restart (the new process starts only after the old "
+             "one exited), kill+restart} runs in two spacings (inside/outside the resume retry wait) with three resume handlers (one "
+             "opted in for deleted objects) and an object created after the start; kills and timing deviations on top. Per (process, "
+             "object, resume handler): at most one success; exactly one at quiescence for handled pre-existing objects without "
+             "unfinished progress; none for objects first seen through the watch; none on deleting objects unless opted in.",
+        design_ref='DESIGN.md §6 C14'),
 }
 
 
